@@ -5,7 +5,7 @@ V = os.path.dirname(os.path.dirname(os.path.abspath(__file__)))
 base = json.load(open("/root/.vp/BASELINE.json"))
 props = [json.loads(l) for l in open(os.path.join(V, "properties.jsonl"))]
 cfgs = {}
-for f in sorted(glob.glob(os.path.join(V, "checks", "C*.json"))):
+for f in sorted(glob.glob(os.path.join(V, "checks", "C[0-9][0-9].json"))):
     c = json.load(open(f))
     cfgs[c["property"]] = c
 hooks = subprocess.run(["git", "-C", "/repo", "log", "--format=%h %s"], stdout=subprocess.PIPE, text=True).stdout.splitlines()
@@ -49,4 +49,11 @@ m = {
     "notes": "See DESIGN.md. Every check: regenerate facts -> lake build Props+Facts -> axiom audit -> build harness from /repo working tree -> correspondence streams -> on a broken obligation or disagreement: shrink + widened search; VIOLATION with a failing input as replay, or 'no-failing-input-found' naming the obligation/stream.",
 }
 json.dump(m, open(os.path.join(V, "MANIFEST.json"), "w"), indent=1)
+# merge per-property findings files into known_findings.json (the only file the check reads)
+kf = {"findings": [], "fixed": []}
+for f in sorted(glob.glob(os.path.join(V, "checks", "C*.findings.json"))):
+    d = json.load(open(f))
+    kf["findings"] += d.get("findings", [])
+    kf["fixed"] += d.get("fixed", [])
+json.dump(kf, open(os.path.join(V, "known_findings.json"), "w"), indent=1)
 print("claimed:", claimed)
